@@ -382,10 +382,19 @@ def extractUnchecked (how : Extract) (cache : Path) (sri : Integrity) (dest : Pa
       | .copy => .copyFile cpath dest
       | .hardLink => .hardLink cpath dest
       | .reflink => .reflink cpath dest
-    match ← call c with
-    | .err e => pure (.error (.io e))
-    | .nat n => pure (.ok n)
-    | _ => pure (.ok 0)
+    let act : Prog (Res Nat) := do
+      match ← call c with
+      | .err e => pure (.error (.io e))
+      | .nat n => pure (.ok n)
+      | _ => pure (.ok 0)
+    match how with
+    | .hardLink =>
+      -- `hard_link` would give a symlinked content path (link_to) a second name without looking at
+      -- what it points to: `metadata` (following links) first, so that missing content is an error
+      match ← call (.sizeOf cpath) with
+      | .err e => pure (.error (.io e))
+      | _ => act
+    | _ => act
 
 /-- Checked extraction by address: verify first, then extract (all three kinds, both flavours). -/
 def extractHash (how : Extract) (cache : Path) (sri : Integrity) (dest : Path) : Prog (Res Nat) := do
